@@ -593,4 +593,54 @@ theorem path_makeFeasible_unsound_without_hpick :
     rw [h] at hb
     exact ⟨_, _, _, Q, sol, cexG_inv, C06.poolInv_init _, h, by simpa using hb⟩
 
+/-! ## non-vacuity -/
+
+/-- empty pool on the reachable graph `C15.nv_g` with capacity 3 and initial load 1: customer `b` (demand 2) cannot
+    be served by a regular vehicle, so the heuristic adds a dummy node for it; the sampler picks the first candidate -/
+def nv_pP : PathInst := { g := { C15.nv_g with cap := some 3, init := some 1 } }
+def nv_pick (_ : ℕ) (l : List ℕ) : ℕ := l.headD 0
+
+theorem nv_pick_mem : ∀ c l, l ≠ [] → nv_pick c l ∈ l := by
+  intro c l hl
+  cases l with
+  | nil => exact absurd rfl hl
+  | cons a t => simp [nv_pick]
+
+theorem nv_pP_inv : C15.Inv nv_pP.g := C15.nv_inv_of_invB _ (by decide +kernel)
+
+/-- `Q, sol` of `P.makeFeasible high pick = .ok (Q, sol)` by evaluation -/
+def nv_pQ : PathInst := (nv_val (nv_pP.makeFeasible 100 nv_pick) (nv_pP, [])).1
+def nv_pSol : List ℚ := (nv_val (nv_pP.makeFeasible 100 nv_pick) (nv_pP, [])).2
+theorem nv_pP_mf : nv_pP.makeFeasible 100 nv_pick = .ok (nv_pQ, nv_pSol) := nv_val_eq _ _ (by decide +kernel)
+
+example : nv_pQ.routes = [[0, 1, 0], [0, 3, 2, 0]] ∧ nv_pQ.costs = [2, 202] ∧ nv_pQ.g.names = ["d", "a", "b", "mf_Dum_2"] ∧
+    nv_pSol = [1, 1] ∧ nv_pQ.data.m = 3 := by decide +kernel
+
+/-- all hypotheses of `path_makeFeasible_sound` hold; its conclusion on the instance -/
+example : nv_pSol.length = nv_pQ.data.n ∧ (∀ v ∈ nv_pSol, v = 0 ∨ v = 1) ∧ nv_pQ.data.feasibleB (vecOf nv_pSol) = true ∧
+    C06.PoolInv nv_pQ ∧ C15.Inv nv_pQ.g :=
+  path_makeFeasible_sound nv_pP 100 nv_pick nv_pQ nv_pSol nv_pick_mem nv_pP_inv (C06.poolInv_init _) nv_pP_mf
+
+/-- the documented preconditions `PathPre` of `path_makeFeasible_total` hold -/
+theorem nv_pP_pre : PathPre nv_pP.g 3 1 where
+  hcap := rfl
+  hinit := rfl
+  init0 := by norm_num
+  initc := by norm_num
+  nonempty := by decide +kernel
+  depotDemand := by decide +kernel
+  depotLo := by decide +kernel
+  depotHi := by decide +kernel
+  custDemand := fun u h1 h2 => by
+    have h3 : nv_pP.g.nodes.length = 3 := by decide +kernel
+    have : u = 1 ∨ u = 2 := by omega
+    rcases this with rfl | rfl <;> decide +kernel
+  custHi := fun u h1 h2 => by
+    have h3 : nv_pP.g.nodes.length = 3 := by decide +kernel
+    have : u = 1 ∨ u = 2 := by omega
+    rcases this with rfl | rfl <;> decide +kernel
+
+example : ∃ Q sol, nv_pP.makeFeasible 7 (fun c l => l.getLastD c) = .ok (Q, sol) :=
+  path_makeFeasible_total nv_pP 7 _ 3 1 nv_pP_inv (C06.poolInv_init _) nv_pP_pre
+
 end Vrp.C09
